@@ -82,6 +82,7 @@ pub fn unit_count(prop: &str, tier: Tier) -> u64 {
         "C18" => (40_000, 3_000_000),
         "C19" => (400_000, 40_000_000),
         "C13" => (6_000, 600_000),
+        "C16" => (60_000, 6_000_000),
         "C15" => (6_000, 600_000),
         "C14" => (200_000, 20_000_000),
         "C20" => (20_000, 1_500_000),
@@ -95,7 +96,14 @@ fn watchdog_secs() -> u64 {
     std::env::var("VERIF_WATCHDOG").ok().and_then(|s| s.parse().ok()).unwrap_or(20)
 }
 
+static EXE_OVERRIDE: Mutex<Option<std::path::PathBuf>> = Mutex::new(None);
+
+/// The executable used for workers and child evaluations (C16 runs a second pass on the build
+/// without overflow checks).
 fn self_exe() -> std::path::PathBuf {
+    if let Some(p) = EXE_OVERRIDE.lock().unwrap().clone() {
+        return p;
+    }
     std::env::current_exe().expect("current exe")
 }
 
@@ -375,6 +383,7 @@ fn write_replay(prop: &str, seed: u64, unit: u64, original: &Case, case: &Case, 
         ("seed", J::u(seed)),
         ("unit", J::u(unit)),
         ("shrink_evaluations", J::u(evals)),
+        ("build_profile", J::s(if std::env::var("VERIF_C16_PASS").is_ok() { "nochecks (overflow-checks = false): replay with target/sim/nochecks/sim replay <file>" } else { "release (overflow-checks = true)" })),
     ];
     if trace != 0 {
         fields.push(("trace_id", J::s(&format!("{trace:016x}"))));
@@ -386,6 +395,54 @@ fn write_replay(prop: &str, seed: u64, unit: u64, original: &Case, case: &Case, 
 }
 
 pub fn check(prop: &str, tier: Tier) -> i32 {
+    if prop == "C16" && std::env::var("VERIF_C16_PASS").is_err() {
+        // two builds of the same code: overflow checks on (an overflow is a panic) and off (the
+        // shipped semantics: wrap-around must not change a result). The second pass runs the
+        // whole supervisor of the other build and keeps its own evidence section.
+        let first = check_pass(prop, tier);
+        let ev_path = format!("{}/evidence/{prop}.json", verif_root());
+        let first_ev = std::fs::read_to_string(&ev_path).ok().and_then(|t| J::parse(&t).ok());
+        let other = format!("{}/target/sim/nochecks/sim", verif_root());
+        if !std::path::Path::new(&other).exists() {
+            eprintln!("harness error: {other} is missing (cargo build --profile nochecks)");
+            return 2;
+        }
+        let status = Command::new(&other).args(["check", prop, tier.name()]).env("VERIF_C16_PASS", "nochecks").status();
+        let second = status.ok().and_then(|s| s.code()).unwrap_or(2);
+        // merge: the evidence file of the second pass is on disk now
+        let second_ev = std::fs::read_to_string(&ev_path).ok().and_then(|t| J::parse(&t).ok());
+        if let (Some(J::Obj(mut a)), Some(b)) = (first_ev, second_ev) {
+            for (k, v) in a.iter_mut() {
+                if k == "coverage" {
+                    if let J::Obj(cov) = v {
+                        cov.push(("second_pass_without_overflow_checks".to_string(), b.at("coverage").clone()));
+                        let add = |cov: &mut Vec<(String, J)>, key: &str| {
+                            let extra = b.at("coverage").at(key).as_u64();
+                            for (k2, v2) in cov.iter_mut() {
+                                if k2 == key {
+                                    *v2 = J::u(v2.as_u64() + extra);
+                                }
+                            }
+                        };
+                        add(cov, "evaluations");
+                        cov.push(("build_profiles".to_string(), J::s("pass 1: overflow-checks = true (sim/Cargo.toml profile.release); pass 2: profile.nochecks (overflow-checks = false)")));
+                    }
+                }
+                if k == "wall_s" {
+                    *v = J::Float(v.as_f64() + b.at("wall_s").as_f64());
+                }
+                if k == "violations" {
+                    *v = J::i(if first != 0 || second != 0 { 1 } else { 0 });
+                }
+            }
+            let _ = std::fs::write(&ev_path, J::Obj(a).pretty());
+        }
+        return if first == 2 || second == 2 { 2 } else { first.max(second) };
+    }
+    check_pass(prop, tier)
+}
+
+fn check_pass(prop: &str, tier: Tier) -> i32 {
     crate::exec::install_panic_hook();
     let start = Instant::now();
     let seed = base_seed();
